@@ -53,8 +53,11 @@ PARSE_PRE = KNOWN + '''#define C14_PARSE_UNIT 1
 ''' + flat_multipart()
 PARSE_ASSUMES = [
     'per call: the start state is symbolic within WF (contracts/c14_mpart.h: c14_parse_harness), so every call history is covered; '
-    'the chunk has exactly N bytes (quick 6, thorough 9), all byte values',
-    'delimiter = CR LF - - plus BL-4 symbolic 7-bit bytes (BL constant: quick 5, thorough 6); boundary bytes >= 0x80 are excluded: '
+    'the chunk has exactly N bytes (piece-free start states: quick 3, thorough 4; start states with stored pieces: quick 2, thorough 3), all byte values',
+    'htp_mpartp_parse is compiled from a line-preserving control-flow normalisation of the current tree (goto STATE_SWITCH folded into the '
+    'loop back edge, flat_multipart() in units/c14_mpart.py; notes/c14.md section 1)',
+    'the boundary_pieces string builder is a model (ordered slots, copying, may fail); bstr_builder.c/htp_list.c are not under this unit',
+    'delimiter = CR LF - - plus BL-4 = 1 symbolic 7-bit byte; boundary bytes >= 0x80 are excluded: '
     'the parser compares `unsigned char` input with `char` boundary bytes, so such a boundary never matches (notes/c14.md, observation O1)',
     'start-state truncation: at most PCAP=3 bytes in front of the candidate in the first stored piece (the code inspects the last two)',
     'part layer (parser->handle_data, parser->handle_boundary) replaced by logging stubs that leave current_part_mode arbitrary',
@@ -88,8 +91,10 @@ def parse_unit(name, n, bl, pcap, timeout, thorough_only=False, extra=''):
         defs={'quick': {'N': n, 'BL': bl, 'PCAP': pcap}},
         flags_add=['--unwind', str(dflt)], unwindset=us, timeout=(timeout, timeout), min_obl=200, thorough_only=thorough_only,
         bound='one call with a chunk of exactly N=%d bytes from any well-formed matcher state; delimiter of BL=%d bytes' % (n, bl),
-        sub='htp_mpartp_parse + htp_martp_process_aside, one call from ANY well-formed matcher state: no out-of-bounds access '
-            '(chunk malloc(N), pieces real bstrs), every (ptr,len) handed to the part layer lies inside the chunk / a stored piece / the CR literal, '
+        sub=('start states with 1..PMAX stored pieces (open candidate carried over): ' if 'ONLY_PIECES' in extra else
+             'start states without stored pieces (all parser states): ') +
+            'htp_mpartp_parse + htp_martp_process_aside, one call from ANY such well-formed matcher state: no out-of-bounds access '
+            '(chunk malloc(N), first stored piece an exact-size heap object), every (ptr,len) handed to the part layer lies inside the chunk / a stored piece / the CR literal, '
             'in stream order, nothing twice; byte conservation: chunk bytes are handed out, set aside, or verified delimiter-line bytes; '
             'stored pieces and the set-aside CR are replayed in full on a refuted candidate; WF holds again on return',
         assumes=PARSE_ASSUMES))
